@@ -68,7 +68,7 @@ impl Part for WirePart {
         true
     }
     fn rule(&self) -> String {
-        "old configuration = pools pa and pb (optionally an untouched pd) on their own mock backends; new configuration = one mutation: identical, [general]-only, pool pb removed, pool pc added, pa re-pointed to another backend, replica added to pa, pa's pool_size or pool_mode changed, pb's password changed, one of pb's two users removed, the roles of pa's primary and replica swapped, syntactically invalid TOML (3 kinds), semantically invalid (bad default_role, non-numeric shard, out-of-range default_shard, splitting without parser, user without password) in pa, pb or an added pool; trigger admin RELOAD or SIGHUP; optionally the pa client is inside a transaction and the pb client has a statement held at the backend while the reload happens, optionally the clients that are not busy have an extended-protocol batch open (Parse/Bind/Execute sent, Sync following after the reload). Oracle: invalid => SHOW CONFIG/SHOW DATABASES identical, no backend session opened or closed by the reload, later transactions on the same backend connections; valid => unchanged pools keep their backend connections (none opened), changed/added/removed pools are in effect for the next transaction (re-pointed pool served by the new backend only, removed pool answered with an error and nothing reaching any backend, added pool reachable), and work open across the reload completes on its original connection with the client's own rows. Non-trivial = a definition change or an invalid file while at least one client has open work (transaction, held statement or unsynced batch)".into()
+        "old configuration = pools pa and pb (optionally an untouched pd) on their own mock backends; new configuration = one mutation: identical, [general]-only, pool pb removed, pool pc added, pa re-pointed to another backend, replica added to pa, pa's pool_size or pool_mode changed, pb's password changed, one of pb's two users removed, the roles of pa's primary and replica swapped, syntactically invalid TOML (3 kinds), semantically invalid (bad default_role, non-numeric shard, out-of-range or unknown default_shard, splitting without parser, user without password, a sharding regex that does not compile, two primaries in a shard) in pa, pb or an added pool; trigger admin RELOAD or SIGHUP; optionally the pa client is inside a transaction and the pb client has a statement held at the backend while the reload happens, optionally the clients that are not busy have an extended-protocol batch open (Parse/Bind/Execute sent, Sync following after the reload). Oracle: invalid => SHOW CONFIG/SHOW DATABASES identical, no backend session opened or closed by the reload, later transactions on the same backend connections; valid => unchanged pools keep their backend connections (none opened), changed/added/removed pools are in effect for the next transaction (re-pointed pool served by the new backend only, removed pool answered with an error and nothing reaching any backend, added pool reachable), and work open across the reload completes on its original connection with the client's own rows. Non-trivial = a definition change or an invalid file while at least one client has open work (transaction, held statement or unsynced batch)".into()
     }
     fn cases(&self, tier: Tier) -> u64 {
         tier.pick(1_000, 14_000)
@@ -87,7 +87,7 @@ impl Part for WirePart {
             2 => Just(Change::RemoveUserB),
             2 => Just(Change::SwapRolesA),
             2 => (0u8..3).prop_map(Change::InvalidSyntax),
-            5 => (0u8..5, 0u8..3).prop_map(|(k, p)| Change::InvalidSemantic(k, p)),
+            7 => (0u8..9, 0u8..3).prop_map(|(k, p)| Change::InvalidSemantic(k, p)),
         ];
         (change, any::<bool>(), any::<bool>(), any::<bool>(), prop_oneof![Just(1u8), Just(2u8), Just(4u8)], any::<bool>(), prop::bool::weighted(0.4))
             .prop_map(|(change, sighup, straddle_a, straddle_b, workers, extra_pool, open_batch)| Case { change, sighup, straddle_a, straddle_b, workers, extra_pool, open_batch })
@@ -175,12 +175,19 @@ fn new_config(mocks: &[crate::mock::MockServer], c: &Case, port: u16) -> (String
                 }
             };
             let p = &mut cfg.pools[idx];
-            match kind % 5 {
+            match kind % 9 {
                 0 => p.settings.push(("default_role".into(), "\"master\"".into())),
                 1 => p.shards[0].id = "zero".into(),
                 2 => p.settings.push(("default_shard".into(), "\"shard_5\"".into())),
                 3 => p.settings.push(("query_parser_read_write_splitting".into(), "true".into())),
-                _ => p.users[0].password = None,
+                4 => p.users[0].password = None,
+                5 => p.settings.push(("sharding_key_regex".into(), "'/\\* sharding_key: (\\d+ \\*/'".into())),
+                6 => p.settings.push(("shard_id_regex".into(), "'[unclosed'".into())),
+                7 => {
+                    let extra = p.shards[0].servers[0].clone();
+                    p.shards[0].servers.push(ServerDef { host: extra.host, port: extra.port + 1, role: "primary".into() });
+                }
+                _ => p.settings.push(("default_shard".into(), "\"first\"".into())),
             }
         }
     }
@@ -328,7 +335,7 @@ async fn run_case(c: &Case, ctx: &mut WorkerCtx) -> Outcome {
     o.nontrivial = (defines_change || !valid) && (c.straddle_a || c.straddle_b || c.open_batch);
     o.label(&format!("change:{}", match &c.change {
         Change::InvalidSyntax(_) => "invalid_syntax".to_string(),
-        Change::InvalidSemantic(k, _) => format!("invalid_semantic_{}", k % 5),
+        Change::InvalidSemantic(k, _) => format!("invalid_semantic_{}", k % 9),
         other => format!("{:?}", other),
     }));
     o.label(if c.sighup { "sighup" } else { "reload_command" });
